@@ -210,7 +210,7 @@ void runOnce(const Args&) {}
 void runCase(long long i, Prng& r, const Args& a) {
   const ref::Group& g = RG();
   gArgs = &a; gCase = i;
-  GenOpt o; o.thetaMax = PI - 1e-3; o.nearPiMin = 1e-3; o.linMax = 1e3;
+  GenOpt o; o.thetaMax = PI - 1e-3; o.nearPiMin = 1e-3; o.linMax = 1e3; o.exactCoeff = 0.03;
   std::string label, l2;
   const MonG X = groupFrom<MonG>(genElement<MonS>(g, r, o, label));
   const MonT t = tangentFrom<MonT>(genTangent<MonS>(g, r, o, l2)), s = tangentFrom<MonT>(genTangent<MonS>(g, r, o, l2));
